@@ -10,6 +10,7 @@
 -/
 import SlicecVerif.Lemmas.Preproc
 import SlicecVerif.Lemmas.PreprocSpec
+import SlicecVerif.Lemmas.PreprocErrors
 
 namespace Slicec.C06
 
@@ -297,6 +298,121 @@ theorem accepts_only_if_lexed_and_parsed (f : List Char) (D : Syms) (bs : List B
       simp only [Except.ok.injEq, Prod.mk.injEq] at h
       exact ⟨toks, ns, hl, hp, h.1.symm, h.2.symm⟩
 
+/-! ## (f) which directives are reported, and where (`Model/PreprocErrors.lean`)
+
+  `reportedErrors f` is the list of located syntax errors (start, end) the compiler reports for the file `f`, in report
+  order: the mirror of the one recovery production `Node → <!> directive_end` and of the LR driver around it (a bad
+  directive line is reported at its first unacceptable token and skipped, the open conditionals are unchanged; end of
+  input inside a conditional and a lexical error stop the parse).  The differential stream compares it with every
+  diagnostic of the real preprocessor (`reject <row>:<col>[-<row>:<col>];…`). -/
+
+/-- The recovery mirror is tied to the model the theorems above are about: for every file and symbol set, the model
+    `preprocess` rejects the file iff `reportedErrors` reports at least one error.  (Nothing is rejected silently, and
+    nothing is reported for an accepted file.) -/
+theorem rejected_iff_reported (f : List Char) (D : Syms) :
+    (∃ r, preprocess f D = .error r) ↔ reportedErrors f ≠ [] := by
+  unfold preprocess
+  rw [lexPre_of_E]
+  cases hle : (lexPreLE f).2 with
+  | some e =>
+    simp only []
+    exact ⟨fun _ => reported_lex_ne f e hle, fun _ => ⟨_, rfl⟩⟩
+  | none =>
+    simp only []
+    have hiff := reported_nil_iff f hle
+    have hrej := rejects_iff_malformed_tokens ((lexPreLE f).1.map (·.tok)) D
+    cases hp : parsePre ((lexPreLE f).1.map (·.tok)) with
+    | none =>
+      simp only []
+      refine ⟨fun _ hnil => ?_, fun _ => ⟨_, rfl⟩⟩
+      obtain ⟨als, h1, h2⟩ := hiff.mp hnil
+      exact hrej.mpr ⟨als, h1, (specFile_ne_none_iff als D).mpr h2⟩ hp
+    | some ns =>
+      simp only []
+      constructor
+      · rintro ⟨r, hr⟩; cases hr
+      · intro hne
+        exfalso
+        apply hne
+        obtain ⟨ls, h1, h2⟩ := hrej.mp (by rw [hp]; simp)
+        exact hiff.mpr ⟨ls, h1, (specFile_ne_none_iff ls D).mp h2⟩
+
+/-- The FULL statement about the locations.  For every file `f` and every reported span: both ends are the locations
+    (`locAt`: rows and columns counted in CHARACTERS by `advance`) of offsets `i ≤ j ≤ |f|` of the file, and every
+    recoverable error (all errors but the last one of a stopped parse) lies on ONE row, which is the row of a directive
+    line of `f` (first character other than inline whitespace is `#`). -/
+def every_error_is_located_in_its_line : Prop :=
+  ∀ (f : List Char) (k : Nat) (sp : Loc × Loc), (reportedErrors f)[k]? = some sp →
+    (∃ i j, i ≤ j ∧ j ≤ f.length ∧ sp.1 = locAt f i ∧ sp.2 = locAt f j) ∧
+    ((parseStopped f = false ∨ k + 1 < (reportedErrors f).length) →
+      sp.1.row = sp.2.row ∧ ∃ l, (splitLines f)[sp.1.row - 1]? = some l ∧ isDirLine l)
+
+/-- What is proved of it, for every file: both ends of every reported span (a) are the location `locAt f i` of an offset
+    `i ≤ |f|` of the file — inside the text, columns counted in characters, the sentence a byte-counting lexer breaks —
+    and (b) are the start or the end of a token of the located lexer model `lexPreLE f` (or of its lexical error, or the
+    initial location 1:1).  MISSING for the full statement: `i ≤ j`, and that all tokens of one directive line lie on the
+    row of its `#` (a located version of `lexer_reads_lines`); the driver checks both on every generated file
+    (`mirrorChecksFile`, and the rows against the line-by-line machine `cerrFile`). -/
+theorem every_error_is_located_in_its_line_partial (f : List Char) :
+    ∀ sp ∈ reportedErrors f,
+      ((∃ i, i ≤ f.length ∧ sp.1 = locAt f i) ∧ (∃ j, j ≤ f.length ∧ sp.2 = locAt f j)) ∧
+      (TokEnd f sp.1 ∧ TokEnd f sp.2) :=
+  fun sp h => ⟨reported_locIn f sp h, reported_tokEnd f sp h⟩
+
+/-- the rows the line-by-line machine and the recovery mirror report agree; the one licensed difference: when the run
+    ends with a LEXICAL error the mirror may have lost the error of the directive line directly in front of it -/
+def _root_.Slicec.Pp.ErrRows.agree (spec mirror : ErrRows) : Prop :=
+  spec = mirror ∨ (spec.lexical = true ∧ mirror.lexical = true ∧ spec.stop = mirror.stop ∧ spec.rows.dropLast = mirror.rows)
+
+/-- The FULL statement "not silently ignored", against a SPEC written independently of the recovery mirror: `cerrFile`
+    is the error-collecting sibling of `cspecFile` — the stack machine over the RAW lines, each classified on its own;
+    a malformed directive line is reported and skipped, a closer without opener is reported and skipped, a line with a
+    lexical error is reported and ends the run, an unclosed opener is reported once at the end.  The rows it collects
+    are the rows of `reportedErrors`, up to the first unrecoverable error.  Evaluated by the driver on EVERY generated
+    file (a disagreement is a model counterexample); not proved (it needs a located `lexer_reads_lines`). -/
+def each_bad_directive_reported_once : Prop := ∀ f : List Char, (cerrFile f).agree (mirrorRows f)
+
+/-- What is proved of it, for every file and symbol set: the mirror reports at least one error iff the EXISTING line-by-line
+    stack machine over the raw lines (`cspecFile`, which stops at the first bad line: a malformed directive line, a closer
+    without opener or after `#else`, an unclosed opener at the end) finds a bad line — no file with a bad directive goes
+    unreported, no report without a bad directive; and the error-collecting sibling `cerrFile` collects nothing (no row, no
+    stop) exactly when the mirror reports nothing.  MISSING for the full statement: that the rows agree one by one when
+    there are errors (`cerrFile` is compared with the mirror by the driver on every generated file). -/
+theorem each_bad_directive_reported_once_partial (f : List Char) (D : Syms) :
+    (reportedErrors f ≠ [] ↔ cspecFile f D = none) ∧
+    (reportedErrors f = [] ↔ ((cerrFile f).rows = [] ∧ (cerrFile f).stop = none)) := by
+  have h1 : reportedErrors f ≠ [] ↔ cspecFile f D = none :=
+    (rejected_iff_reported f D).symm.trans (rejects_iff_malformed_full f D)
+  refine ⟨h1, ?_⟩
+  have h2 := cerrFile_clean_iff f D
+  unfold ErrRows.clean at h2
+  rw [h2]
+  constructor
+  · intro h hc; exact h1.mpr hc h
+  · intro h
+    cases hr : reportedErrors f with
+    | nil => rfl
+    | cons a b => exact absurd (h1.mp (by rw [hr]; simp)) h
+
+/-! ### non-vacuity: the two inputs of the seeded changes C06-I / C06-J (evaluated by the kernel: `decide +kernel`) -/
+
+/-- `#if Bar` / `#elif (Foo   // déjà vu: see the « naïve » façade` / `module M` / `#endif`: the missing `)` is reported at
+    the end of line 2, column 50 counted in characters (56 counted in bytes) -/
+example : reportedErrors "#if Bar\n#elif (Foo   // déjà vu: see the « naïve » façade\nmodule M\n#endif\n".toList = [(⟨2, 50⟩, ⟨2, 50⟩)] := by
+  decide +kernel
+/-- `#define Foo Bar` / `module M` / `#if Baz` / `struct A {}` / `#endif` / `#endif` / `struct B {}`: both bad directives are
+    reported (rows 1 and 6), by the mirror and by the line-by-line machine -/
+example : (reportedErrors "#define Foo Bar\nmodule M\n#if Baz\nstruct A {}\n#endif\n#endif\nstruct B {}\n".toList).map (·.1.row) = [1, 6] ∧
+    cerrFile "#define Foo Bar\nmodule M\n#if Baz\nstruct A {}\n#endif\n#endif\nstruct B {}\n".toList = ⟨[1, 6], none, false⟩ := by
+  decide +kernel
+/-- a malformed `#if` makes its `#endif` a stray one; an open conditional is reported once, at the end of the last token -/
+example : reportedErrors "#if\nx\n#endif".toList = [(⟨1, 4⟩, ⟨1, 4⟩), (⟨3, 1⟩, ⟨3, 7⟩)] ∧
+    reportedFull "#if A\n#if B\n\n".toList = ([(⟨2, 6⟩, ⟨2, 6⟩)], true) := by
+  decide +kernel
+/-- the licensed difference: the error of the line directly in front of a lexical error is lost -/
+example : reportedErrors "#if\n#foo".toList = [(⟨2, 1⟩, ⟨2, 5⟩)] ∧ cerrFile "#if\n#foo".toList = ⟨[1], some 2, true⟩ := by
+  decide +kernel
+
 /-! ## the tie to the source: the grammar the parser was written for is the extracted one -/
 
 /-- the productions `parseNodes`/`parseNode`/`parseRest`/`parseExpr`/`parseTerm` implement -/
@@ -391,3 +507,6 @@ end Slicec.C06
 #print axioms Slicec.C06.rejects_iff_malformed_full
 #print axioms Slicec.C06.accepts_only_if_lexed_and_parsed
 #print axioms Slicec.C06.model_grammar_eq_extracted
+#print axioms Slicec.C06.rejected_iff_reported
+#print axioms Slicec.C06.every_error_is_located_in_its_line_partial
+#print axioms Slicec.C06.each_bad_directive_reported_once_partial
